@@ -22,7 +22,7 @@ def run_one(mu, baseline):
         d = subprocess.run(["diff", "-ruN", "--exclude=.git", "/repo", repo], stdout=subprocess.PIPE, text=True).stdout
         d = d.replace("/repo/", "a/").replace(repo + "/", "b/")
         open("/verif/mutants/%s.patch" % mu["name"], "w").write(d)
-        env = dict(os.environ, GOFLAGS="-mod=mod")
+        env = dict(os.environ, GOFLAGS="-mod=mod", GOTOOLCHAIN="auto")
         b = subprocess.run("go build ./... ", shell=True, cwd=repo, env=env, stdout=subprocess.PIPE, stderr=subprocess.STDOUT, text=True)
         if b.returncode != 0:
             return ["MUTANT %s: DOES-NOT-COMPILE\n%s" % (mu["name"], b.stdout[-500:])]
